@@ -396,6 +396,49 @@ func c20(c *core.Check) {
 		}
 		r4.Cond(len(missing) == 0, e.fn+" escapes the required characters", p.Pos(fn.Pos()), fmt.Sprintf("%d escaping cases", len(cases)), "no escaping case for "+strings.Join(missing, " "))
 	}
+	// no escaper hands its input back unescaped (a fast path must test every character that needs escaping)
+	for _, e := range []esc{{"serializeStringValue", []rune{'"', '\\', '\n', '\r', '\f'}}, {"serializeURL", []rune{'"', '\\', '\n', '\r', '\f', '\'', ' ', '\t', '(', ')'}}, {"serializeName", nil}} {
+		fn := p.Fn("css/parser", e.fn)
+		if fn == nil || len(fn.Params) != 1 {
+			continue
+		}
+		par := fn.Params[0]
+		core.Instrs(fn, func(in ssa.Instruction) {
+			ret, ok := in.(*ssa.Return)
+			if !ok || len(ret.Results) != 1 {
+				return
+			}
+			if core.Unwrap(ret.Results[0]) != ssa.Value(par) {
+				return
+			}
+			// accepted only under !strings.ContainsAny(value, CONST) with CONST covering the required characters
+			okGuard := false
+			for _, a := range core.CondAtomsReaching(fn, ret.Block()) {
+				call, isCall := a.(*ssa.Call)
+				if !isCall {
+					continue
+				}
+				callee := call.Common().StaticCallee()
+				if callee == nil || callee.Name() != "ContainsAny" || len(call.Call.Args) != 2 || call.Call.Args[0] != ssa.Value(par) {
+					continue
+				}
+				chars, isConst := core.ConstStr(call.Call.Args[1])
+				if !isConst || e.need == nil {
+					continue
+				}
+				covers := true
+				for _, rr := range e.need {
+					if !strings.ContainsRune(chars, rr) {
+						covers = false
+					}
+				}
+				if covers && !core.ForwardReach(fn.Blocks[0], map[ssa.Value]bool{a: true}, nil)[ret.Block()] {
+					okGuard = true
+				}
+			}
+			r4.Cond(okGuard, e.fn+" never returns its input unescaped", p.Pos(ret.Pos()), "the raw return is guarded by a test of every character that needs escaping", "the input is returned as is on a path that does not exclude every character that needs escaping (a backslash or quote would be written raw)")
+		})
+	}
 	if fn := p.Fn("css/parser", "serializeName"); fn == nil {
 		r4.Anchor("css/parser.serializeName")
 	} else {
